@@ -190,7 +190,7 @@ pub fn run(seed: u64, ntraces: usize) {
             g.its_tx("registerMetadata", &u, "registerTokenMetadata", vec![tok.clone()], 777, &[], json!({"token": hx(&tok)}));
             let ow = g.owner.clone();
             g.its_tx("removeTrusted", &ow, "removeTrustedAddress", vec![b"axelar".to_vec()], 0, &[], json!({"chain": hx(b"axelar")}));
-            script.extend([22u64, 48, 49, 44, 48, 44, 44]);   // then: a stale operatorship proposal (propose, hand the role on, accept), and a fresh one accepted twice
+            script.extend([22u64, 48, 49, 44, 48, 44, 44, 76, 44, 9]);   // then: a stale operatorship proposal (propose, hand the role on, accept), and a fresh one accepted twice
         }
         if d == 9 {   // F-C17-5: empty destination chain: the callback falls into the local branch
             let u = g.users[0].clone();
@@ -218,7 +218,7 @@ pub fn run(seed: u64, ntraces: usize) {
             else if d == 3 { script.extend([47u64, 46, 23, 46, 3]); }  // steps called with different arguments: (1000, minter) then (0, no minter)
             else if d == 17 { script.extend([27u64, 45, 3, 3, 26]); }     // (17): the second issuance FAILS after the first was recorded: the recorded token stays, a retry is refused
             else { script.extend([3u64, 23, 3, 3]); }
-            if d == 2 { script.extend([40u64, 50, 43, 41, 40, 19, 41, 40, 41]); script.extend([40u64, 51, 67, 53, 69, 41]); }   // ... then: an approval is replaced while its chain is no longer trusted (refused), the chain is trusted again, the replacement is not usable, the original is   // the minter approves a remote deployment, hands the role on, then the stale approval is used                   // step 3, second issuance callback, step 3 again (twice)
+            if d == 2 { script.extend([40u64, 50, 43, 41, 40, 19, 41, 40, 41]); script.extend([40u64, 51, 67, 53, 69, 41, 79]); }   // ... then: an approval is replaced while its chain is no longer trusted (refused), the chain is trusted again, the replacement is not usable, the original is   // the minter approves a remote deployment, hands the role on, then the stale approval is used                   // step 3, second issuance callback, step 3 again (twice)
         }
         if d == 1 || d == 6 || d >= 10 {
             // (1) an inbound link / deploy message for a token id that is already bound; (6) hub-wrapped inbound messages while paused
@@ -241,11 +241,12 @@ pub fn run(seed: u64, ntraces: usize) {
                     script.extend([1602u64, 1702, 1802, 1600, 3090, 3290, 3590, 3291, 3490, 3990, 56, 57, 58, 10, 1602]);
                 }
                 else if d == 10 {   // inbound battery: every routing variant for a transfer without data, the main ones for transfers with data and deployments
-                    for v in 0..20u64 { script.push(1600 + v); }
+                    for v in 0..21u64 { script.push(1600 + v); }
                     script.extend([1700u64, 20, 20, 1702, 1708, 1709, 1711, 1713, 1714, 1716, 1808, 1800, 1802, 1809, 1811, 1813, 1815, 1816, 1818, 1718, 195, 198]);
                 }
                 else if d == 11 {   // the service is paused while a transfer with data is in flight: failed and successful delivery, direct and hub-wrapped
-                    script.extend([1700u64, 10, 21, 20, 10, 1702, 10, 20, 20, 10, 1700, 21, 10, 20, 10, 1700, 1700, 21, 24, 20, 20]);   // last part: a delivery fails while another of the same token is in flight
+                    script.extend([1700u64, 10, 21, 20, 10, 1702, 10, 20, 20, 10, 1700, 21, 10, 20, 10, 1700, 1700, 21, 24, 20, 20]);
+                    script.extend([1700u64, 28, 197, 25, 28, 197, 24, 197]);      // six hours pass in each window of a delivery: the message stays locked   // last part: a delivery fails while another of the same token is in flight
                 }
                 else if d == 12 {   // outbound battery: payment shapes x destination routing, with gas
                     // first: a mint/burn manager (custom token OTH) that also holds the burn role of TOK is paid with TOK: refused; then with its own token: burned
@@ -253,6 +254,11 @@ pub fn run(seed: u64, ntraces: usize) {
                       let (okc, retsc, depc) = g.its_tx("registerCustom", &u0, "registerCustomToken", vec![salt.clone(), tok2.clone(), vec![1u8], opz.to_vec()], 0, &[],
                           json!({"salt": hx(&salt), "token": hx(&tok2), "ty": 1, "operator": hx(opz.as_bytes())}));
                       if okc { let tmc = depc.unwrap(); g.grant_roles(&tmc, &tok2); let tidc = retsc.last().unwrap().clone();
+                          // the manager itself is the recipient of an inbound transfer (it then holds 5 of its own token): a later outbound transfer burns exactly what was paid
+                          { g.msg += 1; let idm = format!("msg-{}", g.msg).into_bytes(); let payload = transfer_payload(&tidc, b"0xsender", tmc.as_bytes(), 5, b"");
+                            let m = Msg { chain: b"ethereum".to_vec(), id: idm.clone(), src: b"0xITSeth".to_vec(), contract: g.its.to_vec(), ph: keccak(&payload) }; g.gw_approve(&m);
+                            g.its_tx("execute", &g.relayer.clone(), "execute", vec![b"ethereum".to_vec(), idm.clone(), b"0xITSeth".to_vec(), payload.clone()], 0, &[],
+                                json!({"chain": hx(b"ethereum"), "id": hx(&idm), "src": hx(b"0xITSeth"), "payload": hx(&payload), "ph": hx(&keccak(&payload)), "label": "in6/to-manager"})); }
                           for (pt, amt) in [(tok.clone(), 7u64), (tok2.clone(), 9u64)] {
                               let e = vec![(pt.clone(), 0u64, bn(amt))];
                               g.its_tx("transfer", &u0, "interchainTransfer", vec![tidc.clone(), b"ethereum".to_vec(), b"0xdead".to_vec(), vec![], vec![]], 0, &e,
@@ -262,13 +268,15 @@ pub fn run(seed: u64, ntraces: usize) {
                     for sh in [9u64, 8, 1] { for ch in 0..2u64 { script.push(3500 + sh * 10 + ch); } }
                     script.extend([3095u64, 3595, 3085, 3585, 3596, 3290, 3291]);
                     script.extend([58u64, 59, 60, 61]);      // a custom token linked to: the hub chain itself (refused), a hub-routed chain, a direct chain   // empty destination address (transfer / call), call data in the metadata
-                    script.extend([51u64, 3080, 3580, 52, 3081, 3581]);      // ethereum removed -> no transfer to it; then the hub removed -> none to a hub-routed chain
+                    script.extend([51u64, 3080, 3580, 52, 3081, 3581]);
+                    script.extend([71u64, 3082, 3582, 59]);      // the hub chain registered as hub-routed: still refused as a destination (transfer, call, linkToken)      // ethereum removed -> no transfer to it; then the hub removed -> none to a hub-routed chain
                 }
                 else if d == 14 {   // inbound deployment in two steps with the nominated minter calling the new manager directly in between
-                    script.extend([193u64, 45, 194, 23, 194, 45, 196]);
+                    script.extend([193u64, 199, 45, 194, 23, 194, 45, 196]);
                 }
                 else if d == 16 {   // the nominated minter already holds minter and operator roles when the hand-over of the third step runs
                     script.extend([62u64, 63, 20, 64, 23, 65, 65, 45]);
+                    script.extend([62u64, 75, 23, 75, 75]);      // a zero-supply deployment with a minter: after the issuance every further call with EGLD attached is refused
                 }
                 else if d == 15 {
                     // (a) remote canonical deployment with an EMPTY destination chain for tokens that were never registered (EGLD: same call; ESDT: in the
@@ -278,7 +286,7 @@ pub fn run(seed: u64, ntraces: usize) {
                         g.its_tx("deployRemoteCanonical", &u2, "deployRemoteCanonicalInterchainToken", vec![tk.clone(), vec![]], gasv, &[], json!({"token": hx(&tk), "dchain": ""})); }
                     // (b) the trusted address of the source chain is removed / replaced while a transfer with data is in flight and restored afterwards:
                     //     the delivered message must end up executed and a second execute must be refused
-                    script.extend([22u64, 56, 1700, 51, 25, 24, 53, 197, 1700, 25, 54, 24, 53, 197, 1702, 52, 25, 24, 55, 197, 70, 26, 26, 57, 26, 26]);
+                    script.extend([22u64, 56, 1700, 51, 25, 24, 53, 197, 1700, 25, 54, 24, 53, 197, 1702, 52, 25, 24, 55, 197, 70, 26, 26, 57, 26, 26, 77, 78, 26]);
                 }
                 else {              // d == 13: message-type words outside the known range, direct and hub-wrapped
                     for i in 0..6u64 { script.push(2000 + i); script.push(2100 + i); }
@@ -296,7 +304,7 @@ pub fn run(seed: u64, ntraces: usize) {
             let has_pending = !g.pend.is_empty();
             let scripted = !script.is_empty();
             let a = if !script.is_empty() { script.remove(0) } else if has_pending && r.chance(1, 2) { 20 } else { *r.pick(&[0u64, 1, 2, 3, 3, 3, 4, 4, 4, 5, 5, 5, 6, 6, 6, 7, 7, 7, 7, 8, 9, 10, 11, 12, 12, 13, 14, 14, 15, 16, 17, 18, 19, 19, 26, 26]) };
-            let a_raw = a; let a = if a == 56 || a == 57 { 0 } else if a == 58 { 1 } else if (59..=61).contains(&a) { 17 } else if a == 198 { 1600 } else { a };
+            let a_raw = a; let a = if a == 56 || a == 57 || a == 77 || a == 78 { 0 } else if a == 58 { 1 } else if (59..=61).contains(&a) { 17 } else if a == 198 { 1600 } else { a };
             let force_fail = a == 21; let force_props_ok = a == 22; let force_issue_ok = a == 23; let force_cb = a == 24; let force_ok = a == 25; let force_issue_fail = a == 27;
             let a = if a == 21 || a == 22 || a == 23 || a == 24 || a == 25 || a == 27 { 20 } else { a };
             // 1<a><vv>: inbound message kind a (6, 7, 8) in routing variant vv; 20<i> / 21<i>: message-type word i (direct / hub-wrapped); 3<shape><chain> / 35..: outbound transfer / call; 190..192: inbound link / deploy for an already bound token id (direct, hub-wrapped, deploy)
@@ -326,6 +334,30 @@ pub fn run(seed: u64, ntraces: usize) {
                 let args = vec![g.gw.to_vec(), g.gas.to_vec(), tmt.to_vec(), g.operator.to_vec(), b"OtherChain".to_vec(), big(0), big(0)];
                 g.its_tx("upgrade", &ow, "upgrade", args, 0, &[], json!({"chain": hx(b"OtherChain")}));
                 continue; }
+            if a == 199 { // an already EXECUTED message id is presented again with a forged deploy payload for the manager of the last inbound deployment (which has no token yet): refused
+                g.msg += 1; let ide = format!("msg-{}", g.msg).into_bytes();
+                if let (Some(tk), Some((_, _, _, dp))) = (g.toks.first().map(|t| t.id.clone()), g.last_in.clone()) {
+                    let p1 = transfer_payload(&tk, b"0xsender", g.users[0].as_bytes(), 1, b"");
+                    let m = Msg { chain: b"ethereum".to_vec(), id: ide.clone(), src: b"0xITSeth".to_vec(), contract: g.its.to_vec(), ph: keccak(&p1) }; g.gw_approve(&m);
+                    g.its_tx("execute", &g.relayer.clone(), "execute", vec![b"ethereum".to_vec(), ide.clone(), b"0xITSeth".to_vec(), p1.clone()], 0, &[],
+                        json!({"chain": hx(b"ethereum"), "id": hx(&ide), "src": hx(b"0xITSeth"), "payload": hx(&p1), "ph": hx(&keccak(&p1)), "label": "in6/spent"}));
+                    if dp.len() >= 64 { let forged = deploy_payload(&dp[32..64], b"Forged", b"FRG", 6, g.users[2].as_bytes());
+                        let u2 = g.users[2].clone();
+                        g.its_tx("execute", &u2, "execute", vec![b"ethereum".to_vec(), ide.clone(), b"0xITSeth".to_vec(), forged.clone()], ISSUE_COST, &[],
+                            json!({"chain": hx(b"ethereum"), "id": hx(&ide), "src": hx(b"0xITSeth"), "payload": hx(&forged), "ph": hx(&keccak(&forged)), "label": "in8/forged-on-spent-id"})); } }
+                continue; }
+            if a == 28 { g.now += 21600; let now = g.now; g.w.set_time(now); continue; }      // six hours pass (a new flow epoch; any timeout has expired)
+            if a == 71 { let ow = g.owner.clone();      // the owner registers the hub chain ITSELF with the routing marker: it still is no destination
+                g.its_tx("setTrusted", &ow, "setTrustedAddress", vec![b"axelar".to_vec(), b"hub".to_vec()], 0, &[], json!({"chain": hx(b"axelar"), "a": hx(b"hub")})); continue; }
+            if a == 76 { // the account that accepted the service's operatorship hands it back to the proposer
+                if let Some((from, to)) = g.proposed.clone() { let (ok, _, _) = g.its_tx("transferOp", &to, "transferOperatorship", vec![from.to_vec()], 0, &[], json!({"a": hx(from.as_bytes())})); if ok { g.operator = from; } }
+                continue; }
+            if a == 79 { // a remote deployment naming the DEPLOYER's own address as destination minter, without any approval: refused
+                if let Some(tk) = g.toks.iter().rev().find(|t| t.kind == "native" && t.minter.len() == 32) {
+                    let (deployer, salt, minter) = (tk.deployer.clone(), tk.salt.clone(), tk.minter.clone()); let dm = deployer.to_vec();
+                    g.its_tx("deployRemote", &deployer, "deployRemoteInterchainTokenWithMinter", vec![salt.clone(), minter.clone(), b"ethereum".to_vec(), dm.clone()], 1000, &[],
+                        json!({"salt": hx(&salt), "minter": hx(&minter), "dchain": hx(b"ethereum"), "dminter": Some(hx(&dm))})); }
+                continue; }
             if a == 197 { // the last inbound message executed once more, exactly as it was (no new approval)
                 if let Some((chain, id, src, payload)) = g.last_in.clone() {
                     g.its_tx("execute", &g.relayer.clone(), "execute", vec![chain.clone(), id.clone(), src.clone(), payload.clone()], 0, &[],
@@ -348,7 +380,8 @@ pub fn run(seed: u64, ntraces: usize) {
                     else if a >= 1000 { fvar = Some((a - 1000) % 100); (a - 1000) / 100 } else { a };
             match a {
                 0 => { // registerCanonicalInterchainToken
-                    let token = if a_raw == 56 { b"EGLD".to_vec() } else if a_raw == 57 { tok2.clone() } else { match r.below(5) { 0 => b"EGLD".to_vec(), 1 => b"bad".to_vec(), 2 => tok2.clone(), _ => tok.clone() } };
+                    let token = if a_raw == 56 { b"EGLD".to_vec() } else if a_raw == 57 { tok2.clone() } else if a_raw == 77 { b"ABCDEFGHIJ-12345a".to_vec() } else if a_raw == 78 { b"ABCDEFGHIJ-12345b".to_vec() }
+                                else { match r.below(7) { 0 => b"EGLD".to_vec(), 1 => b"bad".to_vec(), 2 => tok2.clone(), 5 => b"ABCDEFGHIJ-12345a".to_vec(), 6 => b"ABCDEFGHIJ-12345b".to_vec(), _ => tok.clone() } };      // also identifiers of the maximum length (10-character ticker)
                     let (ok, rets, dep) = g.its_tx("registerCanonical", &anyone, "registerCanonicalInterchainToken", vec![token.clone()], 0, &[], json!({"token": hx(&token)}));
                     if ok { let tm = dep.unwrap(); g.toks.push(Tok { id: rets.last().unwrap().clone(), kind: "lock", tm: tm.clone(), token: Some(token.clone()), salt: vec![], deployer: anyone.clone(), supply: 0, minter: vec![], custody: 0 }); }
                 }
@@ -444,7 +477,7 @@ pub fn run(seed: u64, ntraces: usize) {
                     let inner = if (a == 6 || a == 7) && ((fvar.is_none() && r.chance(1, 10)) || a_raw == 198) { let mut p = inner; p[128 + 15] |= 1; p } else { inner };
                     let inner = if let Some(i) = ftype { let mut p = inner.clone(); for b in p[0..32].iter_mut() { *b = 0; }
                         match i { 0 => p[24] = 0x80, 1 => p[23] = 1, 2 => p[0] = 0x80, 3 => p[31] = 6, 4 => p[31] = 7, _ => p[27] = 1 }; p } else { inner };
-                    let variant = if let Some(v) = fvar { v } else if g.paused && r.chance(1, 3) { 2 } else if r.chance(2, 3) { 0 } else { r.below(20) };
+                    let variant = if let Some(v) = fvar { v } else if g.paused && r.chance(1, 3) { 2 } else if r.chance(2, 3) { 0 } else { r.below(21) };
                     let (chain, src, payload): (Vec<u8>, Vec<u8>, Vec<u8>) = match variant {
                         1 => (b"avalanche".to_vec(), b"hub".to_vec(), inner.clone()),                                   // direct message from a hub-routed chain
                         2 => (b"axelar".to_vec(), b"axelar1hub".to_vec(), hub_wrap(b"avalanche", &inner, 4)),           // properly wrapped
@@ -467,7 +500,8 @@ pub fn run(seed: u64, ntraces: usize) {
                         _ => (b"ethereum".to_vec(), b"0xITSeth".to_vec(), inner.clone()),
                     };
                     let approve = variant != 8;
-                    if approve { let m = Msg { chain: chain.clone(), id: id.clone(), src: src.clone(), contract: g.its.to_vec(), ph: keccak(&payload) }; g.gw_approve(&m); }
+                    // variant 20: the approval is addressed to another contract
+                    if approve { let m = Msg { chain: chain.clone(), id: id.clone(), src: src.clone(), contract: if variant == 20 { g.users[2].to_vec() } else { g.its.to_vec() }, ph: keccak(&payload) }; g.gw_approve(&m); }
                     let mut payload_x = payload.clone(); if r.chance(1, 15) { let n = payload_x.len() - 1; payload_x[n] ^= 1; }    // tampered after approval
                     let reps = if fdeploy { 1 } else if a == 8 { 2 } else { 1 + r.below(2) };
                     g.last_in = Some((chain.clone(), id.clone(), src.clone(), payload_x.clone()));
@@ -547,7 +581,7 @@ pub fn run(seed: u64, ntraces: usize) {
                     let (deployer, salt) = match &known { Some((d, s, _)) if !s.is_empty() => (d.clone(), s.clone()), _ => (anyone.clone(), r.bytes(32)) };
                     match r.below(5) {
                         0 => { g.its_tx("view", &anyone, "interchainTokenId", vec![deployer.to_vec(), salt.clone()], 0, &[], json!({"view": "interchainId", "deployer": hx(deployer.as_bytes()), "salt": hx(&salt)})); }
-                        1 => { let token = match r.below(3) { 0 => b"EGLD".to_vec(), 1 => tok2.clone(), _ => tok.clone() };
+                        1 => { let token = match r.below(5) { 0 => b"EGLD".to_vec(), 1 => tok2.clone(), 3 => b"ABCDEFGHIJ-12345a".to_vec(), 4 => b"ABCDEFGHIJ-12345b".to_vec(), _ => tok.clone() };
                                g.its_tx("view", &anyone, "canonicalInterchainTokenId", vec![token.clone()], 0, &[], json!({"view": "canonicalId", "token": hx(&token)})); }
                         2 => { g.its_tx("view", &anyone, "linkedTokenId", vec![deployer.to_vec(), salt.clone()], 0, &[], json!({"view": "linkedId", "deployer": hx(deployer.as_bytes()), "salt": hx(&salt)})); }
                         3 => { g.its_tx("view", &anyone, "chainNameHash", vec![], 0, &[], json!({"view": "chainNameHash"})); }
@@ -579,13 +613,13 @@ pub fn run(seed: u64, ntraces: usize) {
                     g.its_tx("revokeRemote", &caller, "revokeDeployRemoteInterchainToken", vec![deployer.to_vec(), salt.clone(), dchain.clone()], 0, &[],
                         json!({"deployer": hx(deployer.as_bytes()), "salt": hx(&salt), "dchain": hx(&dchain)}));
                 }
-                46 | 47 | 62 | 63 | 64 | 65 => { // 62..65: a deployment whose steps are called with a minter from the start, an issuance without the cost (fails), then with supply and cost, then the mint step twice
+                46 | 47 | 62 | 63 | 64 | 65 | 75 => { // 62..65: a deployment whose steps are called with a minter from the start, an issuance without the cost (fails), then with supply and cost, then the mint step twice
                     // directed: 47 starts a local deployment (supply 1000, minter users[0]); 46 continues the newest one with DIFFERENT arguments (no supply, no minter)
                     let u = g.users[2].clone();
                     let (salt, supply, minter, egld) = if a == 47 { (r.bytes(32), 1000u64, g.users[0].to_vec(), 0u64) }
                       else if a == 62 { (r.bytes(32), 0u64, g.users[0].to_vec(), 0u64) }
                       else if a >= 63 { let Some(tk) = g.toks.iter().rev().find(|t| t.kind == "native") else { continue; };
-                                        (tk.salt.clone(), if a == 63 { 0u64 } else { 1000 }, g.users[0].to_vec(), if a == 64 { ISSUE_COST } else { 0 }) }
+                                        (tk.salt.clone(), if a == 63 || a == 75 { 0u64 } else { 1000 }, g.users[0].to_vec(), if a == 64 || a == 75 { ISSUE_COST } else { 0 }) }
                       else {
                         let Some(tk) = g.toks.iter().rev().find(|t| t.kind == "native") else { continue; }; (tk.salt.clone(), 0u64, vec![0u8; 32], if tk.token.is_none() { ISSUE_COST } else { 0 }) };
                     let (ok, rets, dep) = g.its_tx("deployToken", &u, "deployInterchainToken", vec![salt.clone(), b"MyToken".to_vec(), b"MTK".to_vec(), vec![18], big(supply), minter.clone()], egld, &[],
